@@ -178,12 +178,21 @@ struct SpkiRec {
 	// ski = id byte repeated with index, spki likewise.
 	static SpkiRec make(uint32_t asn, int ski_id, int spki_id, int src)
 	{
+		// Keys look like real ones: every P-256 SubjectPublicKeyInfo starts with the same 27-byte DER header, and two
+		// ids of one "family" (id / 8) differ in a single late byte only; SKIs of one family (id / 4) differ in their
+		// last bytes only. Comparisons that look at a prefix of the field cannot tell them apart.
+		static const uint8_t der[27] = {0x30, 0x59, 0x30, 0x13, 0x06, 0x07, 0x2a, 0x86, 0x48, 0xce, 0x3d, 0x02, 0x01, 0x06,
+						0x08, 0x2a, 0x86, 0x48, 0xce, 0x3d, 0x03, 0x01, 0x07, 0x03, 0x42, 0x00, 0x04};
 		SpkiRec r;
 		r.asn = asn;
+		int sfam = ski_id / 4;
 		for (int i = 0; i < SKI_SIZE; i++)
-			r.ski[i] = (uint8_t)(ski_id * 7 + i * 13 + (ski_id >> 8));
+			r.ski[i] = (uint8_t)(sfam * 7 + i * 13 + 1);
+		r.ski[SKI_SIZE - 1 - (ski_id % 4)] ^= (uint8_t)(0x80 | (ski_id & 0x7f));
+		int kfam = spki_id / 8;
 		for (int i = 0; i < SPKI_SIZE; i++)
-			r.spki[i] = (uint8_t)(spki_id * 11 + i * 3 + (spki_id >> 8) * 5);
+			r.spki[i] = i < 27 ? der[i] : (uint8_t)(kfam * 11 + i * 3 + 5);
+		r.spki[27 + ((spki_id % 8) * 9) % 64] ^= (uint8_t)(0x40 | (spki_id & 0x3f));
 		r.src = src;
 		return r;
 	}
